@@ -4,6 +4,7 @@ import (
 	"bytes"
 	"encoding/json"
 	"fmt"
+	"os"
 	"time"
 
 	"verif/mc/common"
@@ -27,23 +28,28 @@ type Suite struct {
 	// Classify, if set, may refine a violation's signature with root-cause
 	// discriminators read from the violating state (DESIGN 2.7).
 	Classify func(c *sim.Cluster, v *common.Violation)
+	// Leaf, if set, is evaluated on every state without successors (it may
+	// consume the execution): the fault-free continuation of C15. With
+	// LeafAll it is evaluated on every distinct state (one extra replay each).
+	Leaf    func(c *sim.Cluster) *common.Violation
+	LeafAll bool
 	// Boot, if set, replaces the default cluster construction (HANDLER suites).
 	Boot func(b sim.Budget) *sim.Cluster
 }
 
 // Stats are the counters a DFS produces (evidence raw material).
 type Stats struct {
-	States       uint64         `json:"states"`      // new states claimed by this worker
-	Transitions  uint64         `json:"transitions"` // events executed for the first time
-	Replayed     uint64         `json:"replayed"`    // events re-executed to restore a state
-	Executions   uint64         `json:"executions"`  // boots
-	Revisits     uint64         `json:"revisits"`
-	Leaves       uint64         `json:"leaves"`
-	MaxDepth     int            `json:"max_depth"`
-	EventKinds   map[string]uint64 `json:"event_kinds"`
-	Counters     map[string]uint64 `json:"counters"`
-	DeadlineHit  bool           `json:"deadline_hit"`
-	Samples      [][]string     `json:"samples,omitempty"`
+	States      uint64            `json:"states"`      // new states claimed by this worker
+	Transitions uint64            `json:"transitions"` // events executed for the first time
+	Replayed    uint64            `json:"replayed"`    // events re-executed to restore a state
+	Executions  uint64            `json:"executions"`  // boots
+	Revisits    uint64            `json:"revisits"`
+	Leaves      uint64            `json:"leaves"`
+	MaxDepth    int               `json:"max_depth"`
+	EventKinds  map[string]uint64 `json:"event_kinds"`
+	Counters    map[string]uint64 `json:"counters"`
+	DeadlineHit bool              `json:"deadline_hit"`
+	Samples     [][]string        `json:"samples,omitempty"`
 }
 
 func (s *Stats) Merge(o *Stats) {
@@ -259,6 +265,26 @@ func (d *DFS) Run(prefix []sim.Event) {
 				evs := x.C.Enabled()
 				if d.S.Filter != nil {
 					evs = d.S.Filter(x.C, evs)
+				}
+				if d.S.Leaf != nil && (len(evs) == 0 || d.S.LeafAll) {
+					if d.Stats.Counters == nil {
+						d.Stats.Counters = map[string]uint64{}
+					}
+					d.Stats.Counters["continuations"]++
+					if v := d.S.Leaf(x.C); v != nil {
+						if os.Getenv("VERIF_LEAFDUMP") != "" {
+							fmt.Fprintf(os.Stderr, "LEAFDUMP %v\n%s\n", path(), x.C.Dump())
+						}
+						d.found(v, path())
+					}
+					if len(evs) > 0 {
+						// the continuation consumed the execution: restore the state
+						x.Close()
+						if !boot() {
+							fresh = false
+							continue
+						}
+					}
 				}
 				if len(evs) == 0 {
 					d.Stats.Leaves++
